@@ -28,27 +28,37 @@ def split_top(s, sep):
     return [x.strip() for x in out if x.strip() != ""] if sep == "," else out
 
 
-TOK = re.compile(r"\s*([>+~])\s*|(\s+)|([^\s>+~()]+(?:\((?:[^()]|\([^()]*\))*\))?(?:[^\s>+~()]+(?:\((?:[^()]|\([^()]*\))*\))?)*)")
-
-
 def parse_complex(text):
-    i = 0
+    """split at top-level combinators / white space (parentheses may nest to any depth)"""
+    text = text.strip()
     out = []
     comb = ""
-    text = text.strip()
-    while i < len(text):
-        m = TOK.match(text, i)
-        if not m or m.end() == i:
-            raise Unsupported("cannot read %r" % text[i:])
-        i = m.end()
-        if m.group(1):
-            comb = m.group(1)
-        elif m.group(2):
-            if comb == "":
+    i = 0
+    n = len(text)
+    while i < n:
+        ch = text[i]
+        if ch in " \t\n":
+            j = i
+            while j < n and text[j] in " \t\n":
+                j += 1
+            if comb == "" and out:
                 comb = " "
+            i = j
+        elif ch in ">+~":
+            comb = ch
+            i += 1
         else:
-            out.append({"comb": comb if out else "", "cmp": parse_compound(m.group(3))})
+            j = i
+            depth = 0
+            while j < n and (depth > 0 or text[j] not in " \t\n>+~"):
+                if text[j] == "(":
+                    depth += 1
+                elif text[j] == ")":
+                    depth -= 1
+                j += 1
+            out.append({"comb": comb if out else "", "cmp": parse_compound(text[i:j])})
             comb = ""
+            i = j
     if not out:
         raise Unsupported("empty complex selector")
     return out
@@ -84,6 +94,9 @@ def parse_compound(text):
             inner = parse_list(text[m.end():j - 1])
             (c["nots"] if m.group(3) == "not" else c["iss"]).append(inner)
             i = j
+        elif m.group(7) is not None:
+            c["cls"].append(m.group(7))          # a placeholder: a class no element ever has natively
+            i = m.end()
         else:
             raise Unsupported("selector outside the modelled alphabet: %r" % m.group(0))
     return c
